@@ -20,6 +20,7 @@ import Indi.Spec.Sys
 import Indi.Model.Sys
 import Indi.Model.Xml
 import Indi.Spec.RtrR
+import Indi.Model.Conn
 
 open Indi Indi.Wire
 
@@ -55,6 +56,7 @@ def xmlBufSession (T : Option Nat) : Str → List Str → List String
   | data, p :: ps =>
     let r := Buf.feed xmlBufParse (Generated.messageClasses.map (·.tag)) T data p
     (encDeliv' r.1 ++ " ; " ++ encStr r.2) :: xmlBufSession T r.2 ps
+
 
 /-! router component -/
 
@@ -546,6 +548,44 @@ def sysRun : Sys.World → List Sys.Op → List String
   | _, [] => []
   | w, op :: rest => let w' := Sys.step Generated.registry w op; encWorld w' :: sysRun w' rest
 
+
+/-! conn component: the whole receive path of a server connection (bytes -> framing -> parser -> router) -/
+
+def pConnEvent : P Conn.Event := do
+  let t ← tok
+  match t with
+  | "D" => do let i ← pNat; let n ← pOpt; pure (.device ⟨i, n⟩)
+  | "K" => do let i ← pNat; let k ← pBool; pure (.connect i k)
+  | "R" => do let i ← pNat; let chunk ← pStr; let r ← pOptNat'; pure (.recv i chunk r)
+  | "E" => do let i ← pNat; pure (.eof i)
+  | "X" => do let i ← pNat; pure (.readError i)
+  | "P" => do
+    let tag ← pStr
+    let dv ← pOpt
+    let pol ← pPolicy
+    let sd ← pSender
+    match Rtr.rmsgOf Generated.registry tag dv pol with
+    | some m => pure (.publish m sd)
+    | none => fail
+  | _ => fail
+
+def sortNat (l : List Nat) : List Nat := l.mergeSort (· ≤ ·)
+
+def encConnObs (sv : Conn.Server) (o : Conn.Out) : String :=
+  let all := o.deliveries.flatten
+  let devs := all.filterMap fun t => match t with | .dev i => some ("d" ++ toString i) | _ => none
+  let clis := (sortNat (all.filterMap fun t => match t with | .cli i => some i | _ => none)).eraseDups.map fun i => "c" ++ toString i
+  encRState sv.router ++ " closed " ++ String.intercalate "," ((sv.conns.filter (·.writerClosed)).map fun c => toString c.id) ++
+    " done " ++ String.intercalate "," ((sv.conns.filter (!·.serving)).map fun c => toString c.id) ++
+    " got " ++ String.intercalate " " (devs ++ clis)
+
+def connRun : Conn.Server → List Conn.Event → List String
+  | _, [] => []
+  | sv, e :: es =>
+    let (sv', o) := Conn.step sv e
+    encConnObs sv' o :: connRun sv' es
+
+
 def handle (ts : List String) : String :=
   match ts with
   | "spec" :: "c07" :: rest =>
@@ -777,6 +817,13 @@ def handle (ts : List String) : String :=
         let snaps ← pList pBits; let after ← pBits
         pure (r, before, op, snaps, after)) rest with
     | some (r, before, op, snaps, after) => encBool (Spec.Switch.holds r before op snaps after)
+    | none => "bad-op"
+  | "conn" :: "run" :: rest =>
+    -- devices registered beforehand (not reported), then the session; one observation per event
+    match runP (do let ds ← pList pConnEvent; let marks ← pList pNat; let evs ← pList pConnEvent; pure (ds, marks, evs)) rest with
+    | some (ds, marks, evs) =>
+      let all := connRun (Conn.run {} ds).1 evs
+      String.intercalate " | " (marks.map fun i => all.getD i "?")
     | none => "bad-op"
   | "router" :: "rhist" :: rest =>
     match runP (do let h ← pList pOp; let rs ← pList pReaction; pure (h, rs)) rest with
